@@ -276,4 +276,54 @@ def ownTagsT (root : Shape) (var : VarTable) (p : Path) : List Viol :=
 def validatePartialT (pm : List Path) (root : Shape) (var : VarTable) (o : Opts) : Option Result :=
   partialFrom mkErr (leafPaths pm) (ownTagsT root var) o
 
+/-! ### `Validator.Validate`: custom validator, `WithRunAll`, strategy selection (validate.go) -/
+
+/-- `cfg.strategy` -/
+inductive Strat where
+  | auto | iface | tags | schema
+  deriving DecidableEq, Repr, Inhabited
+
+/-- `isApplicable(ctx, val, strategy, cfg)` for the three strategies (reflect facts about the value: it or its
+    pointer implements `Validate()` / `ValidateContext(ctx)`; it is a struct with a `validate` tag on a field of its
+    own; a schema is available) — parameters -/
+structure Applic where
+  iface : Bool
+  tags : Bool
+  schema : Bool
+  deriving DecidableEq, Repr, Inhabited
+
+/-- what each strategy returns for the value (`validateWithInterface` ∘ `coerceToValidationErrors`,
+    `validateWithTags` in partial or full mode, `validateWithSchema`) -/
+structure StratRes where
+  iface : Option Result
+  tags : Option Result
+  schema : Option Result
+  deriving Repr
+
+/-- `determineStrategy`: interface, then tags, then JSON Schema; tags by default -/
+def determineStrategy (a : Applic) : Strat :=
+  if a.iface then .iface else if a.tags then .tags else if a.schema then .schema else .tags
+
+/-- `validateByStrategy` (an explicitly chosen strategy is run without asking `isApplicable`) -/
+def byStrategy (s : Strat) (r : StratRes) : Option Result :=
+  match s with
+  | .iface => r.iface
+  | .tags => r.tags
+  | .schema => r.schema
+  | .auto => r.tags
+
+/-- the strategies `validateAll` runs, in its order, each only when applicable -/
+def applicableParts (a : Applic) (r : StratRes) : List (Option Result) :=
+  (if a.iface then [r.iface] else []) ++ (if a.tags then [r.tags] else []) ++ (if a.schema then [r.schema] else [])
+
+/-- `Validator.Validate` after the nil / nil-pointer tests: the custom validator runs first and its error (a
+    `*validation.Error` with these fields) ends the call; then `WithRunAll`; then the chosen or determined strategy -/
+def validateTop (custom : Option (List FieldErr)) (runAll : Bool) (strategy : Strat) (a : Applic) (r : StratRes)
+    (o : Opts) : Option Result :=
+  match custom with
+  | some errs => coerce errs o
+  | none =>
+    if runAll then validateAll (applicableParts a r) o
+    else byStrategy (if strategy == .auto then determineStrategy a else strategy) r
+
 end Rivaas.Presence
